@@ -25,9 +25,9 @@ META = {
                    "(UTF-8 surrogateescape) and parse_file_id(generate_file_id p)=p for every byte path; sha<->revision id "
                    "through the mapping registry; branch/tag name<->ref under the exact guard (name does not start with "
                    "refs/), with machine-checked refutations outside the guard; "
-                   "bzr_url_to_git_url(git_url_to_bzr_url(u,branch,ref)) = (norm u, branch', ref') for every URL whose last "
-                   "path segment has no comma (refuted with a comma); set_parent/_get_parent_location round trip only when "
-                   "the branch is called like its remote (refuted otherwise: candidate defect)."),
+                   "bzr_url_to_git_url(git_url_to_bzr_url(u,branch,ref)) = (norm u with commas quoted, branch', ref') for EVERY "
+                   "recognised URL, where (branch', ref') denotes the same ref; set_parent/_get_parent_location round trip for "
+                   "every named branch."),
     "level_note": ("Trusted: Coq kernel, vm_compute, the hand model's correspondence (bounded: exhaustive to length 3/4 over "
                    "alphabets that contain every escape character, grammar-generated URLs), CPython UTF-8 codec, urllib quote, "
                    "dromedary urlutils and dulwich parse_rsync_url as modelled and exercised; str(URL) for ssh:// locations and "
@@ -158,13 +158,16 @@ def corpus():
         {"kind": "revid", "exp": False, "x": b"git-v1:" + ZERO},
         {"kind": "refname", "s": cps("refs/heads/x")},          # C36-branch-name-refs-prefix
         {"kind": "refname", "s": cps("refs/tags/x")},
-        {"kind": "ref", "x": b"refs/heads/refs/x"},             # C36-ref-heads-refs-prefix
+        {"kind": "ref", "x": b"refs/heads/refs/x"},             # C36-ref-heads-refs-prefix (refs.py residue, known)
         {"kind": "ref", "x": b"refs/heads/"},
-        {"kind": "url", "loc": cps("git://h/r,a=b"), "branch": cps("x"), "ref": None},   # C36-url-comma
+        {"kind": "url", "loc": cps("git://h/r,a=b"), "branch": cps("x"), "ref": None},   # C36-url-comma, fixed 3b37c3b: must pass
         {"kind": "url", "loc": cps("git://h/r,a"), "branch": None, "ref": None},
+        {"kind": "url", "loc": cps("git://h/r"), "branch": None, "ref": b"refs/heads/refs/y"},   # fixed c5a74d8: must pass
+        {"kind": "url", "loc": cps("git://h/r"), "branch": None, "ref": b"refs/heads/"},
+        {"kind": "parent", "name": "foo", "loc": cps("git://h/r,ref=refs%2Fheads%2Frefs%2Fy")},
         {"kind": "url", "loc": cps("git://h/r"), "branch": None, "ref": b"refs/tags/v1"},  # repaired F-C36
         {"kind": "url", "loc": cps("git://h/r"), "branch": cps("a b"), "ref": None},
-        {"kind": "parent", "name": "foo", "loc": cps("git://h/r,branch=b")},               # C36-parent-branch-section
+        {"kind": "parent", "name": "foo", "loc": cps("git://h/r,branch=b")},               # C36-parent-branch-section, fixed e7f72ba: must pass
         {"kind": "parent", "name": "origin", "loc": cps("git://h/r,branch=b")},
         {"kind": "parent", "name": "foo", "loc": cps("git://h/r,branch=rel%2520notes")},   # seeded double-decode in set_parent
         {"kind": "url", "loc": cps("git://h/r"), "branch": cps("rel%20notes"), "ref": None},
@@ -496,7 +499,7 @@ def _recognised(loc):
     if "://" in loc and ":" not in loc.split("://", 1)[0]:
         scheme = loc.split("://", 1)[0]
         if scheme in ("git+ssh", "git", "http", "https", "ftp") or scheme.startswith("chroot-"):
-            return lambda t: t == loc
+            return lambda t: t == loc.replace(",", "%2C")    # commas are quoted (3b37c3b)
         if scheme == "ssh":
             return lambda t: t.startswith("git+ssh://")
     if ":" in loc:
@@ -512,11 +515,6 @@ def _eff(branch, ref):
     if ref:
         return ref
     return b"HEAD"
-
-
-def _last_seg_has_comma(u):
-    from breezy import urlutils
-    return "," in u.rsplit("/", 1)[-1] or "," in urlutils.strip_trailing_slash(u).rsplit("/", 1)[-1]
 
 
 def oracle(inp, obs):
@@ -639,26 +637,11 @@ def finding_matches(fid, inp, obs, why):
     if fid == "C36-branch-name-refs-prefix":
         return k == "refname" and ustr(inp["s"]).startswith("refs/")
     if fid == "C36-ref-heads-refs-prefix":
+        # residue after c5a74d8: only the pure refs.py pair ref -> name -> ref
         if k == "ref":
             x = bytes(inp["x"])
             return x == b"refs/heads/" or x.startswith(b"refs/heads/refs/")
-        if k == "url" and inp["ref"] is not None:
-            return bytes(inp["ref"]).startswith(b"refs/heads/refs/") or bytes(inp["ref"]) == b"refs/heads/"
-        if k == "parent":
-            loc = ustr(inp["loc"])
-            return "ref=refs%2Fheads%2Frefs%2F" in loc
         return False
-    if fid == "C36-url-comma":
-        if k != "url":
-            return False
-        from breezy.git.urls import git_url_to_bzr_url
-        try:
-            norm = git_url_to_bzr_url(ustr(inp["loc"]))
-        except Exception:
-            return False
-        return _last_seg_has_comma(norm)
-    if fid == "C36-parent-branch-section":
-        return k == "parent" and inp["name"] not in ("", "origin")
     return False
 
 
